@@ -1265,6 +1265,10 @@ class Insert(ValuesBase, HasSyntaxExtensions[Literal["post_values"]]):
                 InternalTraversal.dp_clauseelement_tuple,
             ),
             ("_sort_by_parameter_order", InternalTraversal.dp_boolean),
+            (
+                "include_insert_from_select_defaults",
+                InternalTraversal.dp_boolean,
+            ),
         ]
         + HasPrefixes._has_prefixes_traverse_internals
         + DialectKWArgs._dialect_kwargs_traverse_internals
